@@ -70,11 +70,17 @@ def tables():
         UnDirectedEdge: {"v1side": "", "v2side": ""},
         zoo.DSub: {"v1side": "o", "v2side": ">>"},
     }
-    return {"default": t0, "overrides": t1, "grandparents": t2, "userfunc": t3, "otherlinks": t4, "multi": t5}
+    t6 = {
+        # attribute names that collide with words the renderer uses itself: id, type, title
+        Vertex: {"type": "object", "show_attrs": ["id", "idx", "type"], "title_format": "n{id}_{type}"},
+        DirectedEdge: {"v1side": "", "v2side": ">"},
+        UnDirectedEdge: {"v1side": "", "v2side": ""},
+    }
+    return {"default": t0, "overrides": t1, "grandparents": t2, "userfunc": t3, "otherlinks": t4, "multi": t5, "idattr": t6}
 
 
 TABLE_ALLOWS_OTHER = {"default": False, "overrides": False, "grandparents": True, "userfunc": False, "otherlinks": True,
-                      "multi": False, "incremental": False}
+                      "multi": False, "incremental": False, "idattr": False}
 
 
 def nearest(cls, table):
@@ -90,7 +96,7 @@ def title(v, table):
         return f"U{v.idx}"
     if o["title_format"] == "$id":
         return hex(id(v))
-    return o["title_format"].format(idx=v.idx, uid=v.uid)
+    return o["title_format"].format(idx=v.idx, uid=v.uid, id=getattr(v, "id", None), type=getattr(v, "type", None))
 
 
 def floors(ctx):
@@ -112,6 +118,8 @@ INCREMENTAL_ADDS = {
 
 
 def run_case(ctx, spec, tname):
+    if tname == "idattr":
+        spec = dict(spec, attrs={str(i): {"id": 100 + i, "type": "T"} for i in range(len(spec["verts"]))})
     g = graphs.build(spec)
     if tname == "incremental":
         # the user renders with a small table, then configures intermediate classes in the same table object and
